@@ -1,5 +1,6 @@
 import TarpcModel.Props.C02
 import TarpcModel.Props.C16Client
+import TarpcModel.Lemmas.ClientAccount
 /-!
 # C02 — the global statement: what is false, what is missing
 
@@ -11,6 +12,20 @@ stays pending for ever with nothing that excuses it.  The only reachable panic i
 the witness is an artefact of the model, not a lost wakeup of tarpc.)  The statement needs the hypothesis under which
 the C16 theorems show the dispatch never panics: `advSum ops < 2^35 ms` (`C16_client_never_poisoned`).
 `C02NoStuckStatement'` is the statement with that hypothesis; it is still unproved.
+
+What is proved here towards it is the invariant the previous partial results were missing —
+`C02_call_accounted`: in every reachable state every call future that waits has something that can wake it on record:
+
+* an `awaiting` call (receiver open) has its request in the request queue, or an entry in the in-flight table, or its
+  oneshot already holds a value, or the oneshot's sender was dropped (or the dispatch has panicked);
+* a `reserving` call is in the wait queue of the request channel or has been handed a permit (or the channel is closed,
+  in which case `C02_close_wakes_all_waiters` applies; or its `Acquire` is being dropped).
+
+With the clock bound of the C16 theorems the "panicked" alternative disappears (`C02_call_accounted_no_panic`).
+Together with `C02_terminal_fanout_partial`, `C02_completion_wakes_caller`, `C02_sender_drop_wakes_caller`,
+`C02_capacity_wakes_waiter` this says that whatever the dispatch does next with a waiting call's request reaches the
+call; what remains open for `C02NoStuckStatement'` is the dispatch's own parking discipline over a whole `pollDispatch`
+(a parked dispatch with work queued is registered on the source that will make the work possible).
 -/
 namespace TarpcModel.Client
 
@@ -43,5 +58,199 @@ def C02NoStuckStatement' : Prop :=
 
 /-- the witness violates the new hypothesis, as it must -/
 example : ¬ advSum c02PoisonOps < 2 ^ 35 * nsPerMs := by decide
+
+/-! ### every waiting call is accounted for -/
+
+/-- **C02: every waiting call is accounted for**, in every reachable state. -/
+theorem C02_call_accounted (m b c : Nat) (coupled : Bool) (ops : List COp)
+    (s : St) (hs : s = (ops.foldl applyOp (initSys m b c coupled)).s) :
+    (∀ cl ∈ s.calls, cl.phase = .awaiting → cl.os.rxClosed = false →
+      (∃ r ∈ s.pq, r.cid = cl.cid) ∨ (∃ e ∈ s.inflight, e.cid = cl.cid) ∨ cl.os.val.isSome = true ∨
+        cl.os.txDropped = true ∨ s.poisoned = true) ∧
+    (∀ cl ∈ s.calls, cl.phase = .reserving →
+      cl.cid ∈ s.pqWaiters ∨ cl.cid ∈ s.pqAssigned ∨ cl.os.txDropped = true ∨ s.pqClosed = true) := by
+  subst hs
+  have h := reach_acc m b c coupled ops
+  constructor
+  · intro cl hcl hph hrx
+    have hm : (cl.cid, Phase.awaiting, cl.os.txDropped, false, cl.os.val.isSome) ∈
+        acores (ops.foldl applyOp (initSys m b c coupled)).s := by
+      have := mem_acores_of_mem hcl
+      simpa [acore, hph, hrx] using this
+    rcases h.acc _ _ _ hm with y | y | y | y | y | y
+    · exact Or.inl y
+    · exact Or.inr (Or.inl y)
+    · exact Or.inr (Or.inr (Or.inl y))
+    · exact Or.inr (Or.inr (Or.inr (Or.inl y)))
+    · exact Or.inr (Or.inr (Or.inr (Or.inr y)))
+    · cases y
+  · intro cl hcl hph
+    have hm : (cl.cid, Phase.reserving, cl.os.txDropped, cl.os.rxClosed, cl.os.val.isSome) ∈
+        acores (ops.foldl applyOp (initSys m b c coupled)).s := by
+      have := mem_acores_of_mem hcl
+      simpa [acore, hph] using this
+    exact h.res _ _ _ _ hm
+
+/-- … and while the clock stays below 2^35 ms the dispatch has not panicked: an `awaiting` call's request is queued,
+in flight, answered, or its sender is gone. -/
+theorem C02_call_accounted_no_panic (m b c : Nat) (coupled : Bool) (ops : List COp) (hT : advSum ops < 2 ^ 35 * nsPerMs)
+    (s : St) (hs : s = (ops.foldl applyOp (initSys m b c coupled)).s) :
+    ∀ cl ∈ s.calls, cl.phase = .awaiting → cl.os.rxClosed = false →
+      (∃ r ∈ s.pq, r.cid = cl.cid) ∨ (∃ e ∈ s.inflight, e.cid = cl.cid) ∨ cl.os.val.isSome = true ∨
+        cl.os.txDropped = true := by
+  intro cl hcl hph hrx
+  have hp : s.poisoned = false := by
+    rw [hs]; exact (C16_client_never_poisoned m b c coupled ops hT ops (List.prefix_refl _)).1
+  rcases (C02_call_accounted m b c coupled ops s hs).1 cl hcl hph hrx with y | y | y | y | y
+  · exact Or.inl y
+  · exact Or.inr (Or.inl y)
+  · exact Or.inr (Or.inr (Or.inl y))
+  · exact Or.inr (Or.inr (Or.inr y))
+  · rw [hp] at y; cases y
+
+/-- the accounting on a concrete script: one request in flight, one still queued behind a full table, one caller
+waiting for a permit -/
+example :
+    let ops := [COp.call 0 1000000000 ⟨1, .given 1, false⟩ 7, .call 0 1000000000 ⟨2, .given 2, false⟩ 8,
+      .call 0 1000000000 ⟨3, .given 3, false⟩ 9, .pollCall 0, .pollDispatch, .pollCall 1, .pollCall 2]
+    let s := (ops.foldl applyOp (initSys 1 1 4 true)).s
+    s.inflight.map (·.cid) = [0] ∧ s.pq.map (·.cid) = [1] ∧ s.pqWaiters = [2] ∧
+    s.calls.map (·.phase) = [.awaiting, .awaiting, .reserving] := by
+  decide
+
+/-! ### from the accounting to "nobody is stuck": what is still missing, exactly -/
+
+/-- The wake-up discipline of a quiescent state — the part of `C02NoStuckStatement'` that is not proved.
+`np`, `rs`, `aw`: a call future that is not woken is parked where it will be woken (a fresh future is born woken; a
+future waiting for a permit is in the wait queue; a future waiting for its response has an open, empty oneshot whose
+sender is alive).  `gone`: a dispatch that was dropped or has completed leaves no waiter and no queued request behind.
+`full`: callers wait for permits only while the queue holds requests (permits handed out wake their owner).  `park`:
+**a parked dispatch does not sit on a queued request** unless the in-flight table is full or the sink is not ready. -/
+structure C02WakeInv (s : St) : Prop where
+  np : ∀ cl ∈ s.calls, cl.phase = .notPolled → cl.woken = true
+  rs : ∀ cl ∈ s.calls, cl.phase = .reserving → cl.woken = false → cl.cid ∈ s.pqWaiters
+  aw : ∀ cl ∈ s.calls, cl.phase = .awaiting → cl.woken = false →
+    cl.os.rxClosed = false ∧ cl.os.val = none ∧ cl.os.txDropped = false
+  gone : (s.dDropped = true ∨ s.done.isSome = true) → s.pqWaiters = [] ∧ s.pq = []
+  full : s.pqWaiters ≠ [] → (∀ cl ∈ s.calls, callLive cl = true → cl.woken = false) → s.pq ≠ []
+  park : s.dDropped = false → s.done = none → s.dWoken = false → s.termErr = none → s.pq ≠ [] →
+    s.inflight.length ≥ s.maxInFlight ∨ s.t.isReadyNow = false
+
+/-- `settle` only polls: the state it stops in is reachable by a script that does not advance the clock -/
+theorem settleLoop_reach (fuel : Nat) (c : Sys) : ∃ ops', settleLoop fuel c = ops'.foldl applyOp c ∧ advSum ops' = 0 := by
+  induction fuel generalizing c with
+  | zero => exact ⟨[], rfl, rfl⟩
+  | succ fuel ih =>
+    unfold settleLoop
+    split
+    · obtain ⟨ops', h1, h2⟩ := ih { c with s := pollDispatch c.s c.now }
+      exact ⟨.pollDispatch :: ops', by rw [h1]; rfl, by simp [advSum, opAdv, h2]⟩
+    · split
+      · rename_i cid _
+        obtain ⟨ops', h1, h2⟩ := ih { c with s := pollCall c.s cid c.now }
+        exact ⟨.pollCall cid :: ops', by rw [h1]; rfl, by simp [advSum, opAdv, h2]⟩
+      · exact ⟨[], rfl, rfl⟩
+
+/-- the request of a tracked call has been written (by body, as `requestWritten` looks it up) -/
+theorem requestWritten_of_entry {s : St} (hi : Inv none (view s)) (hp : s.poisoned = false) {cl : Call}
+    (hcl : cl ∈ s.calls) {e : Entry} (he : e ∈ s.inflight) (hc : e.cid = cl.cid) : requestWritten s cl = true := by
+  have hid : e.id ∈ reqIds s.t.sentLog := hi.infSent hp e he (by simp)
+  unfold reqIds at hid
+  obtain ⟨msg, hmsg, hm⟩ := List.mem_filterMap.mp hid
+  cases msg with
+  | request id dl tr body =>
+    simp only [Option.some.injEq] at hm
+    subst hm
+    obtain ⟨i, cv, hgi, henq, hcvid, _, hbody, _⟩ := hi.reqCall _ dl tr body hmsg
+    obtain ⟨cv', hgv', henq', hcv'id, _⟩ := hi.inf e he
+    have hij : i = e.cid := hi.idInj i e.cid cv cv' hgi hgv' henq.polled henq'.polled (by rw [hcvid, hcv'id])
+    subst hij
+    rw [hgv'] at hgi; injection hgi with hgi; subst hgi
+    have hclv : (view s).get cl.cid = some cl.v := view_getCall_some (getCall_of_mem_inv hi hcl)
+    rw [hc, hclv] at hgv'; injection hgv' with hgv'
+    unfold requestWritten
+    rw [List.any_eq_true]
+    refine ⟨_, hmsg, ?_⟩
+    simp only [beq_iff_eq]
+    rw [hbody, ← hgv']; rfl
+  | cancel _ _ => simp at hm
+  | response _ _ => simp at hm
+
+/-- **C02, the global statement, reduced to the wake-up discipline**: if every reachable state (clock below 2^35 ms)
+satisfies `C02WakeInv`, then after `settle` no call is stuck.  The rest of the argument — every waiting call is
+accounted for (`C02_call_accounted_no_panic`), a tracked request has been written, the dispatch has not panicked — is
+proved. -/
+theorem C02_no_stuck_of_wake_inv
+    (hW : ∀ (m b c : Nat) (coupled : Bool) (ops : List COp), 1 ≤ m → 1 ≤ b → 1 ≤ c → advSum ops < 2 ^ 35 * nsPerMs →
+      C02WakeInv (ops.foldl applyOp (initSys m b c coupled)).s) : C02NoStuckStatement' := by
+  intro m b c coupled ops hm hb hc hT
+  unfold settle
+  simp only
+  split
+  · rfl
+  · rename_i hq
+    simp only [Bool.or_eq_true, not_or, Bool.not_eq_true, Option.isSome_eq_false_iff, Option.isNone_iff_eq_none] at hq
+    obtain ⟨hrun, hwok⟩ := hq
+    obtain ⟨ops', hreach, hadv⟩ := settleLoop_reach 400 (ops.foldl applyOp (initSys m b c coupled))
+    have hfold : settleLoop 400 (ops.foldl applyOp (initSys m b c coupled)) = (ops ++ ops').foldl applyOp (initSys m b c coupled) := by
+      rw [hreach, List.foldl_append]
+    have hT' : advSum (ops ++ ops') < 2 ^ 35 * nsPerMs := by rw [advSum_append, hadv]; simpa using hT
+    rw [hfold] at hrun hwok ⊢
+    generalize hs : ((ops ++ ops').foldl applyOp (initSys m b c coupled)).s = s at hrun hwok ⊢
+    have hw : C02WakeInv s := hs ▸ hW m b c coupled (ops ++ ops') hm hb hc hT'
+    have hi : Inv none (view s) := hs ▸ reach_inv m b c coupled (ops ++ ops')
+    have hp : s.poisoned = false := by
+      rw [← hs]; exact (C16_client_never_poisoned m b c coupled (ops ++ ops') hT' _ (List.prefix_refl _)).1
+    have hacc := C02_call_accounted_no_panic m b c coupled (ops ++ ops') hT' s hs.symm
+    have hquiet := firstWokenCall_none s hwok
+    -- the dispatch is gone, or parked
+    have hdisp : (s.dDropped = true ∨ s.done.isSome = true) ∨ (s.dDropped = false ∧ s.done = none ∧ s.dWoken = false) := by
+      unfold dispatchRunnable at hrun
+      rw [hp] at hrun
+      cases hd : s.dDropped with
+      | true => exact Or.inl (Or.inl rfl)
+      | false =>
+        cases hdn : s.done with
+        | some r => exact Or.inl (Or.inr rfl)
+        | none =>
+          right
+          refine ⟨rfl, rfl, ?_⟩
+          simpa [hd, hdn] using hrun
+    -- a queued request excuses every call (or contradicts a dispatch that is gone)
+    have hqueued : s.pq ≠ [] → ∀ cl : Call, excused s cl = true := by
+      intro hpq cl
+      rcases hdisp with hg | ⟨h1, h2, h3⟩
+      · exact absurd (hw.gone hg).2 hpq
+      · unfold excused
+        cases hte : s.termErr with
+        | some a => simp
+        | none =>
+          rcases hw.park h1 h2 h3 hte hpq with h' | h'
+          · simp [h']
+          · simp [h']
+    unfold stuckCalls
+    rw [List.map_eq_nil_iff, List.filter_eq_nil_iff]
+    intro cl hcl hbad
+    simp only [Bool.and_eq_true, Bool.not_eq_true'] at hbad
+    obtain ⟨hlive, hnex⟩ := hbad
+    have hnw : cl.woken = false := hquiet cl hcl hlive
+    have hex : excused s cl = true := by
+      cases hph : cl.phase with
+      | notPolled => rw [hw.np cl hcl hph] at hnw; cases hnw
+      | reserving =>
+        have hwt := hw.rs cl hcl hph hnw
+        have hne : s.pqWaiters ≠ [] := fun h => by rw [h] at hwt; cases hwt
+        exact hqueued (hw.full hne (fun c' hc' hl => hquiet c' hc' hl)) cl
+      | awaiting =>
+        obtain ⟨hrx, hv, htx⟩ := hw.aw cl hcl hph hnw
+        rcases hacc cl hcl hph hrx with ⟨r, hr, _⟩ | ⟨e, he, hce⟩ | h' | h'
+        · exact hqueued (fun h => by rw [h] at hr; cases hr) cl
+        · unfold excused
+          rw [requestWritten_of_entry hi hp hcl he hce]; simp
+        · rw [hv] at h'; cases h'
+        · rw [htx] at h'; cases h'
+      | resolved => simp [callLive, hph] at hlive
+      | dropped => simp [callLive, hph] at hlive
+    rw [hex] at hnex; cases hnex
 
 end TarpcModel.Client
